@@ -52,6 +52,17 @@ class PersistentWorker(Worker):
     def next_result(self, block=True, timeout=None):
         if not self.is_alive():
             ret = self.results_endpoint.get_nowait()
+        elif block and timeout is None:
+            # a queue (unlike a pipe) does not tell us when the worker is gone: do not keep waiting
+            # for a worker which has died in the meantime, e.g. right after the end of its results has been read
+            while True:
+                try:
+                    ret = self.results_endpoint.get(block=True, timeout=0.1)
+                    break
+                except queue.Empty:
+                    if not self.is_alive():
+                        ret = self.results_endpoint.get_nowait()
+                        break
         else:
             ret = self.results_endpoint.get(block=block, timeout=timeout)
 
